@@ -5,6 +5,7 @@ import PhysisModel.Model.C18Stm
 import PhysisModel.Model.C18Avfx
 import PhysisModel.Model.C18Dic
 import PhysisModel.Model.C18Lgb
+import PhysisModel.Model.C18Havok
 namespace Physis.Driver.C18Pbc
 open Physis Physis.Proto Physis.A Physis.Driver.C18
 
@@ -15,12 +16,21 @@ def dic (h : String) : String :=
   | some b => answer "=" "ok" (if C18Dic.walkUnbounded b then ["kf:dic.walk-unbounded"] else [])
   | none => bad
 
+/-- `sklb`: outcome class of the complete model; files whose objects take heap out of proportion (by
+the model's estimate) carry the tag of the recorded finding -/
+def sklb (h : String) : String :=
+  match Bytes.ofHexFast h with
+  | some b =>
+    answer "=" (C18Havok.fromExisting b).cls
+      (if C18Havok.heapOutOfProportion b then ["kf:sklb.object-heap-amplification"] else [])
+  | none => bad
+
 /-- `none` = not a case of this part -/
 def handle? (f : List String) : Option String :=
   match f with
   | ["stm", h] => some (asset C18Stm.fromExisting h)
   | ["avfx", h] => some (asset C18Avfx.fromExisting h)
-  | ["sklb", h] => some (anyOk h)
+  | ["sklb", h] => some (sklb h)
   | ["lgb", h] => some (asset C18Lgb.fromExisting h)
   | ["dic", h] => some (dic h)
   | _ => none
